@@ -135,8 +135,56 @@ def correspond(mv, real, dump, ckmap, have_hooks):
     return mm
 
 
+def run_limited(c, runner, hist, work, tag):
+    """The last deployment of the history runs on a "full disk": no file may grow beyond hist["file_size_limit"] bytes
+    (whatever it reports).  The sources are then deployed once more without the limit; after that the build directory
+    must behave like a clean deployment of the same sources.  The model takes no part (it has no failing writes)."""
+    root = os.path.join(work, tag)
+    shutil.rmtree(root, ignore_errors=True)
+    os.makedirs(root)
+    res = {"mismatches": [], "violations": [], "deploys": 0, "decisions": 0, "rebuilds": 0, "reuses": 0, "detects": []}
+    states = [hist["base"]] + hist["steps"]
+    w = None
+    for i, sj in enumerate(states):
+        w = dc.Workspace.from_json(sj)
+        w.write(root)
+        last = i == len(states) - 1
+        r = runner.deploy(root, w.clock + 3, file_size_limit=hist["file_size_limit"] if last else None)
+        res["deploys"] += 1
+        if r["rc"] not in (0, 1) and not last:
+            # (how the limited deployment itself ends is not judged: a write error may end it in any way — what is demanded
+            # is that the next deployment repairs whatever it left)
+            res["violations"].append(("C12:deploy:crash", "deployment %d exited with %d: %s" % (i, r["rc"], r["raw"][-600:])))
+        if last:
+            res["limited_rc"] = r["rc"]
+    r2 = runner.deploy(root, w.clock + 5)
+    if r2["rc"] not in (0, 1):
+        res["violations"].append(("C12:after-failed-writes:crash", "the deployment after one that could not write more than %d bytes per file "
+                                  "exited with %d: %s" % (hist["file_size_limit"], r2["rc"], r2["raw"][-600:])))
+    d2 = runner.dump(root)
+    res["deploys"] += 1
+    croot = os.path.join(work, tag + "_clean")
+    shutil.rmtree(croot, ignore_errors=True)
+    os.makedirs(croot)
+    w.write(croot)
+    rc_ = runner.deploy(croot, w.clock + 3)
+    dclean = runner.dump(croot)
+    res["deploys"] += 1
+    for n, what in dc.compare_dumps(d2, dclean):
+        res["violations"].append(("C12:after-failed-writes:%s" % what.split(" differs")[0].replace(" ", "-"),
+                                  "a deployment that could not write more than %d bytes per file, then a normal one: %s: %s "
+                                  "(clean deploy of the same sources disagrees)" % (hist["file_size_limit"], n, what)))
+    if (rc_["tasks"].get("workspace_update") == 1) != (r2["tasks"].get("workspace_update") == 1):
+        res["violations"].append(("C12:after-failed-writes:verdict", "the deployment after the limited one and a clean deployment return different verdicts"))
+    shutil.rmtree(root, ignore_errors=True)
+    shutil.rmtree(croot, ignore_errors=True)
+    return res
+
+
 def run_history(c, runner, hist, work, have_hooks, tag, check_sessions=True):
     """hist = {"base": ws json, "steps": [ws json after each edit]}.  Returns dict(mismatches, violations, stats)."""
+    if hist.get("file_size_limit") is not None:
+        return run_limited(c, runner, hist, work, tag)
     root = os.path.join(work, tag)
     shutil.rmtree(root, ignore_errors=True)
     os.makedirs(root)
@@ -272,6 +320,9 @@ def directed_histories(far=True):
     mk("imported table -> table, prisms, packs", ("row_add dx: new syllable", edit("dx.dict.yaml", lambda f: f["rows"].append(["哦", "ou", 66]))))
     mk("preset vocabulary -> table", ("essay: new phrase made of known characters",
        lambda w: edit("essay.txt", lambda f: f["rows"].append([w.files[w.resolve("da.dict.yaml")]["rows"][-1][0] + w.files[w.resolve("da.dict.yaml")]["rows"][-2][0], 400]))(w)))
+    mk("vocabulary filters of a dictionary compiled earlier in the same deployment",
+       ("list sb,sa", edit("default.yaml", lambda f: f.__setitem__("schema_list", ["sb", "sa"]))),
+       ("row_add da", edit("da.dict.yaml", lambda f: f["rows"].append(["啊", "aa", 77]))))
     mk("schema algebra -> prism", ("algebra_add sa", edit("sa.schema.yaml", lambda f: f["algebra"].append("derive/^n/l/"))))
     mk("included config -> compiled schema -> prism", ("common: rule added", edit("common.yaml", lambda f: f["rules"].append("derive/^h/f/"))))
     mk("custom patch appears and vanishes",
@@ -487,6 +538,21 @@ def run(c):
             all_viol.append((sig, what + " [directed: %s]" % hist["directed"], hist))
         for m in res["mismatches"]:
             all_mm.append((m, hist))
+    # a deployment on a full disk between two normal ones: the first few directed histories, the last deployment of each
+    # limited to a few file sizes (inside the compiled schema, inside build info, past the configs but inside the tables)
+    limits = (150, 333, 700, 3000) if quick else (60, 150, 333, 500, 700, 1500, 3000, 6000, 20000)
+    lim_hists = [h for h in directed_histories(False) if any(k in h["directed"] for k in (
+        ("schema algebra", "included config", "custom patch appears", "primary syllabary") if quick else
+        ("schema algebra", "included config", "custom patch", "default.custom", "primary syllabary", "imported table", "preset vocabulary",
+         "pack source", "user copy")))]
+    for i, hist in enumerate(lim_hists):
+        for lim in limits:
+            h2 = dict(hist, file_size_limit=lim)
+            res = run_history(c, runner, h2, c.work, have_hooks, "lim%d_%d" % (i, lim))
+            stats["limited_deployments"] = stats.get("limited_deployments", 0) + 1
+            stats["deploys"] += res["deploys"]
+            for sig, what in res["violations"]:
+                all_viol.append((sig, what + " [directed: %s]" % hist["directed"], h2))
     # generated histories
     for h in range(n_hist):
         big = (h % 5 == 4)
@@ -546,7 +612,7 @@ def run(c):
                  "one real deployment compared with the model; a history is non-trivial when its deployments took both 'rebuild' and "
                  "'reuse' decisions; distinct by edit list"),
         "samples": samples, "histories": stats["histories"], "decisions_compared": stats["decisions"],
-        "rebuild_decisions": stats["rebuilds"], "reuse_decisions": stats["reuses"], "edit_kind_distribution": stats["edit_kinds"],
+        "rebuild_decisions": stats["rebuilds"], "reuse_decisions": stats["reuses"], "edit_kind_distribution": stats["edit_kinds"], "deployments_on_a_full_disk": stats.get("limited_deployments", 0),
         "session_transcript_lines": stats["session_lines"], "corpus_cases": stats["corpus"], "directed_histories": stats.get("directed", 0),
         "far_future_mtimes": "run" if far else "NOT RUN (the scratch file system cannot hold mtimes past 2^31 s)",
         "generated_histories_by_epoch": stats["epochs"],
